@@ -171,7 +171,7 @@ def run(c):
     scen_path = c.path("scenarios.ndjson")
     scenarios = []
     enumerated = {}
-    per_class = c.pick(dict(pool=2, flagged=1), dict(pool=30, flagged=20))
+    per_class = c.pick(dict(pool=2, flagged=1), dict(pool=20, flagged=10))
     for comp in ("pool", "flagged"):
         path, n, cfg = files[comp]
         groups = {}
